@@ -55,7 +55,7 @@ func prg(addr uint16, code ...uint8) []byte {
 
 var numIterKinds = []string{"absent", "raise", "0", "1", "3", "2.5", "str3", "nil", "true", "table"}
 var assertKinds = []string{"true", "false", "nil", "1", "strtrue", "nothing", "truemsg", "raise"}
-var binKinds = []string{"brk", "brk", "brk", "illegal", "bcd", "unmapped", "short", "asmfail", "trapok", "trapraise", "trapmissing", "trapruntime"}
+var binKinds = []string{"brk", "brk", "brk", "illegal", "bcd", "unmapped", "short", "asmfail", "trapok", "trapraise", "trapmissing", "trapruntime", "trapfirstraise", "trapsecondraise"}
 
 func luaNumIters(kind string) string {
 	switch kind {
@@ -124,6 +124,11 @@ func verdictCase(r *rng.R, dir string) string {
 		sb.WriteString("function trap(c) error('trap boom') end\n")
 	case "trapruntime":
 		sb.WriteString("function trap(c) local t = nil; t.x = c end\n")
+	case "trapfirstraise":
+		// the driver stores to the trap address twice per run: only the first call of a run raises
+		sb.WriteString("tcalls = 0\nfunction trap(c) tcalls = tcalls + 1; if tcalls % 2 == 1 then error('first trap boom') end end\n")
+	case "trapsecondraise":
+		sb.WriteString("tcalls = 0\nfunction trap(c) tcalls = tcalls + 1; if tcalls % 2 == 0 then error('second trap boom') end end\n")
 	}
 	if scriptBroken {
 		sb.WriteString("this is not lua\n")
@@ -143,6 +148,8 @@ func verdictCase(r *rng.R, dir string) string {
 		code = []byte{0x00, 0x08}
 	case "trapok", "trapraise", "trapmissing", "trapruntime":
 		code = prg(0x0800, 0xA9, 0x42, 0x8D, 0x00, 0x7F, 0xE8, 0x00) // LDA #$42; STA $7F00 (trap); INX
+	case "trapfirstraise", "trapsecondraise":
+		code = prg(0x0800, 0xA9, 0x42, 0x8D, 0x00, 0x7F, 0xE8, 0x8D, 0x00, 0x7F, 0x00) // two stores to the trap address
 	}
 	fa := &fakeAsm{bins: map[string]string{}}
 	if bin != "asmfail" {
